@@ -224,7 +224,7 @@ fn embedded_uri<const OP: u8, const FRESH: bool, const N: usize, const M: usize,
     forget(x);
 }
 
-// @h prop=C10,C04:thorough tier=quick kind=check timeout=2400 mem=10 bound="UriRefBuf text <= 4 bytes, segment <= 2 bytes" encodes="RiRefBufImpl::path_mut;PathMutImpl::{new,push,first_segment_offset};utils::{replace,allocate_range};Deref for PathMut"
+// @h prop=C10,C04:thorough tier=quick kind=check reach=0 timeout=2400 mem=10 bound="UriRefBuf text <= 4 bytes, segment <= 2 bytes" encodes="RiRefBufImpl::path_mut;PathMutImpl::{new,push,first_segment_offset};utils::{replace,allocate_range};Deref for PathMut"
 #[cfg_attr(kani, kani::proof)]
 #[cfg_attr(kani, kani::unwind(9))]
 #[cfg_attr(kani, kani::stub(std::vec::Vec::resize, crate::stubs::vec_resize))]
@@ -232,7 +232,7 @@ pub fn c10_embedded_push_n4() {
     embedded_uri::<PUSH, false, 4, 2, 8>(covers_push_min)
 }
 
-// @h prop=C10 tier=thorough kind=check timeout=2400 mem=16 bound="UriRefBuf text <= 5 bytes, segment <= 2 bytes" encodes="RiRefBufImpl::path_mut;PathMutImpl::{new,push,first_segment_offset};utils::{replace,allocate_range};Deref for PathMut"
+// @h prop=C10 tier=thorough kind=check reach=0 timeout=2400 mem=16 bound="UriRefBuf text <= 5 bytes, segment <= 2 bytes" encodes="RiRefBufImpl::path_mut;PathMutImpl::{new,push,first_segment_offset};utils::{replace,allocate_range};Deref for PathMut"
 #[cfg_attr(kani, kani::proof)]
 #[cfg_attr(kani, kani::unwind(10))]
 #[cfg_attr(kani, kani::stub(std::vec::Vec::resize, crate::stubs::vec_resize))]
@@ -240,7 +240,7 @@ pub fn c10_embedded_push_n5() {
     embedded_uri::<PUSH, true, 5, 2, 9>(covers_push)
 }
 
-// @h prop=C10,C04:thorough tier=quick kind=check timeout=2400 mem=10 bound="UriRefBuf text <= 4 bytes" encodes="PathMutImpl::{pop,push};PathImpl::last;utils::replace"
+// @h prop=C10,C04:thorough tier=quick kind=check reach=0 timeout=2400 mem=10 bound="UriRefBuf text <= 4 bytes" encodes="PathMutImpl::{pop,push};PathImpl::last;utils::replace"
 #[cfg_attr(kani, kani::proof)]
 #[cfg_attr(kani, kani::unwind(8))]
 #[cfg_attr(kani, kani::stub(std::vec::Vec::resize, crate::stubs::vec_resize))]
@@ -248,7 +248,7 @@ pub fn c10_embedded_pop_n4() {
     embedded_uri::<POP, false, 4, 0, 7>(covers_pop_min)
 }
 
-// @h prop=C10 tier=thorough kind=check timeout=2400 mem=16 bound="UriRefBuf text <= 5 bytes" encodes="PathMutImpl::{pop,push};PathImpl::last;utils::replace"
+// @h prop=C10 tier=thorough kind=check reach=0 timeout=2400 mem=16 bound="UriRefBuf text <= 5 bytes" encodes="PathMutImpl::{pop,push};PathImpl::last;utils::replace"
 #[cfg_attr(kani, kani::proof)]
 #[cfg_attr(kani, kani::unwind(9))]
 #[cfg_attr(kani, kani::stub(std::vec::Vec::resize, crate::stubs::vec_resize))]
@@ -256,7 +256,7 @@ pub fn c10_embedded_pop_n5() {
     embedded_uri::<POP, true, 5, 0, 8>(covers_pop)
 }
 
-// @h prop=C10,C04 tier=quick kind=check timeout=2400 mem=10 bound="UriRefBuf text <= 5 bytes" encodes="PathMutImpl::clear;utils::replace"
+// @h prop=C10,C04 tier=quick kind=check reach=0 timeout=2400 mem=10 bound="UriRefBuf text <= 5 bytes" encodes="PathMutImpl::clear;utils::replace"
 #[cfg_attr(kani, kani::proof)]
 #[cfg_attr(kani, kani::unwind(8))]
 #[cfg_attr(kani, kani::stub(std::vec::Vec::resize, crate::stubs::vec_resize))]
@@ -264,7 +264,7 @@ pub fn c10_embedded_clear_n5() {
     embedded_uri::<CLEAR, false, 5, 0, 6>(covers_clear)
 }
 
-// @h prop=C10,C04 tier=thorough kind=check timeout=3000 mem=24 bound="UriRefBuf text <= 4 bytes, segment <= 2 bytes (incl. '.', '..')" encodes="uri::PathMut::symbolic_push;PathMutImpl::{symbolic_push,pop,push}"
+// @h prop=C10,C04 tier=thorough kind=check reach=0 timeout=3000 mem=24 bound="UriRefBuf text <= 4 bytes, segment <= 2 bytes (incl. '.', '..')" encodes="uri::PathMut::symbolic_push;PathMutImpl::{symbolic_push,pop,push}"
 #[cfg_attr(kani, kani::proof)]
 #[cfg_attr(kani, kani::unwind(10))]
 #[cfg_attr(kani, kani::stub(std::vec::Vec::resize, crate::stubs::vec_resize))]
@@ -272,7 +272,7 @@ pub fn c10_embedded_symbolic_push_n4() {
     embedded_uri::<SYMBOLIC_PUSH, true, 4, 2, 9>(covers_push)
 }
 
-// @h prop=C10 tier=thorough kind=check timeout=3000 mem=20 bound="UriRefBuf text <= 5 bytes, appended path <= 4 bytes" encodes="PathMutImpl::symbolic_append over SegmentsImpl;symbolic_push;pop;push"
+// @h prop=C10 tier=thorough kind=check reach=0 timeout=3000 mem=20 bound="UriRefBuf text <= 5 bytes, appended path <= 4 bytes" encodes="PathMutImpl::symbolic_append over SegmentsImpl;symbolic_push;pop;push"
 #[cfg_attr(kani, kani::proof)]
 #[cfg_attr(kani, kani::unwind(13))]
 #[cfg_attr(kani, kani::stub(std::vec::Vec::resize, crate::stubs::vec_resize))]
@@ -317,7 +317,7 @@ fn standalone_uri<const OP: u8, const N: usize, const M: usize, const K: usize>(
     forget(x);
 }
 
-// @h prop=C10,C04 tier=quick kind=check timeout=2400 mem=10 bound="uri::PathBuf text <= 4 bytes, segment <= 2 bytes" encodes="uri::PathBuf::push;PathMutImpl::{from_path,push}"
+// @h prop=C10,C04:thorough tier=quick kind=check reach=0 timeout=2400 mem=10 bound="uri::PathBuf text <= 4 bytes, segment <= 2 bytes" encodes="uri::PathBuf::push;PathMutImpl::{from_path,push}"
 #[cfg_attr(kani, kani::proof)]
 #[cfg_attr(kani, kani::unwind(9))]
 #[cfg_attr(kani, kani::stub(std::vec::Vec::resize, crate::stubs::vec_resize))]
@@ -325,7 +325,7 @@ pub fn c10_pathbuf_push_n4() {
     standalone_uri::<PUSH, 4, 2, 8>(covers_standalone_push)
 }
 
-// @h prop=C10,C04:thorough tier=quick kind=check timeout=2400 mem=10 bound="uri::PathBuf text <= 4 bytes" encodes="uri::PathBuf::pop;PathMutImpl::pop"
+// @h prop=C10,C04:thorough tier=quick kind=check reach=0 timeout=2400 mem=10 bound="uri::PathBuf text <= 4 bytes" encodes="uri::PathBuf::pop;PathMutImpl::pop"
 #[cfg_attr(kani, kani::proof)]
 #[cfg_attr(kani, kani::unwind(8))]
 #[cfg_attr(kani, kani::stub(std::vec::Vec::resize, crate::stubs::vec_resize))]
@@ -333,7 +333,7 @@ pub fn c10_pathbuf_pop_n4() {
     standalone_uri::<POP, 4, 0, 7>(covers_standalone_pop)
 }
 
-// @h prop=C10 tier=thorough kind=check timeout=3000 mem=20 bound="uri::PathBuf text <= 5 bytes, appended path <= 4 bytes" encodes="uri::PathBuf::symbolic_append"
+// @h prop=C10 tier=thorough kind=check reach=0 timeout=3000 mem=20 bound="uri::PathBuf text <= 5 bytes, appended path <= 4 bytes" encodes="uri::PathBuf::symbolic_append"
 #[cfg_attr(kani, kani::proof)]
 #[cfg_attr(kani, kani::unwind(13))]
 #[cfg_attr(kani, kani::stub(std::vec::Vec::resize, crate::stubs::vec_resize))]
@@ -386,7 +386,7 @@ fn two_ops_embedded<const N: usize, const M: usize>() {
     forget(y);
 }
 
-// @h prop=C10,C04:thorough tier=thorough kind=check timeout=5400 mem=26 bound="UriRefBuf text <= 5 bytes, two symbolic ops (push/pop/clear) through one handle, segment <= 2 bytes" encodes="PathMutImpl::{push,pop,clear} in sequence on one handle (start/end bookkeeping)"
+// @h prop=C10,C04:thorough tier=thorough kind=check reach=0 timeout=5400 mem=26 bound="UriRefBuf text <= 5 bytes, two symbolic ops (push/pop/clear) through one handle, segment <= 2 bytes" encodes="PathMutImpl::{push,pop,clear} in sequence on one handle (start/end bookkeeping)"
 #[cfg_attr(kani, kani::proof)]
 #[cfg_attr(kani, kani::unwind(14))]
 #[cfg_attr(kani, kani::stub(std::vec::Vec::resize, crate::stubs::vec_resize))]
